@@ -92,7 +92,7 @@ def run(sid, props, tier='quick'):
             if rc == 2:
                 print(out[-1500:])
     finally:
-        sh('git -C %s checkout -- . && git -C %s clean -fdq' % (REPO, REPO))
+        sh('git -C %s checkout HEAD -- . && git -C %s clean -fdq' % (REPO, REPO))
         rc, out = sh('git -C %s status --porcelain' % REPO)
         assert out.strip() == '', 'could not restore /repo: ' + out
     mp = os.path.join(d, 'meta.json')
